@@ -6,7 +6,7 @@ From Age Require Import Base IO Stream.
 From Coq Require Import ZifyN ZifyNat ZifyBool.
 Local Open Scope nat_scope.
 
-Arguments ctr_limit : simpl never.
+#[local] Arguments ctr_limit : simpl never.
 Local Opaque ctr_limit.
 
 (** * Lists *)
@@ -643,3 +643,298 @@ Section Dec.
     exact (dec_rel_not_EOther _ _ _ _ _ E Hb).
   Qed.
 End Dec.
+
+(** * Encryption against decryption *)
+
+Section Main.
+  Variable cs : nat.
+  Hypothesis cs_pos : 0 < cs.
+  Variable seal : bytes -> bytes -> bytes.
+  Variable open_ : bytes -> bytes -> option bytes.
+  Hypothesis aead_correct : forall n p, open_ n (seal n p) = Some p.
+  Hypothesis seal_len : forall n p, length (seal n p) = length p + 16.
+
+  (** The ciphertext of [p] when the first chunk is sealed under counter [ctr]
+      ([encrypt_spec] is the case [ctr = 0]). *)
+  Local Notation enc_from ctr p :=
+    (concat (map (fun x : N * bool * bytes => snd x) (enc_chunks cs seal ctr p))).
+
+  Lemma enc_from_last : forall ctr p,
+    length p <= cs -> enc_from ctr p = seal (nonce_of ctr true) p.
+  Proof using cs_pos.
+    intros ctr p Hle. rewrite enc_chunks_last by exact Hle.
+    cbn [map concat snd]. apply app_nil_r.
+  Qed.
+
+  Lemma enc_from_cons : forall ctr p,
+    cs < length p ->
+    enc_from ctr p
+    = seal (nonce_of ctr false) (firstn cs p) ++ enc_from (ctr + 1)%N (skipn cs p).
+  Proof using cs_pos.
+    intros ctr p Hlt. rewrite (enc_chunks_cons cs cs_pos seal) by exact Hlt. reflexivity.
+  Qed.
+
+  Lemma length_enc_from : forall ctr p,
+    length (enc_from ctr p) = length p + 16 * length (enc_chunks cs seal ctr p).
+  Proof using cs_pos seal_len.
+    clear aead_correct open_.
+    apply (enc_chunks_ind cs cs_pos (fun ctr p =>
+      length (enc_from ctr p) = length p + 16 * length (enc_chunks cs seal ctr p))).
+    - intros ctr p Hle. rewrite enc_from_last by exact Hle.
+      rewrite enc_chunks_last by exact Hle. rewrite seal_len. cbn [length]. lia.
+    - intros ctr p Hlt IH. rewrite enc_from_cons by exact Hlt.
+      rewrite (enc_chunks_cons cs cs_pos seal ctr p Hlt).
+      rewrite app_length, IH, seal_len, firstn_length, skipn_length. cbn [length]. lia.
+  Qed.
+
+  Lemma length_encrypt_spec_chunks : forall p,
+    length (encrypt_spec cs seal p) = length p + 16 * length (enc_chunks cs seal 0 p).
+  Proof using cs_pos seal_len.
+    intros p. unfold encrypt_spec. apply length_enc_from.
+  Qed.
+
+  Lemma length_encrypt_spec : forall p,
+    length (encrypt_spec cs seal p) = length p + 16 * S ((length p - 1) / cs).
+  Proof using cs_pos seal_len.
+    intros p. rewrite length_encrypt_spec_chunks.
+    rewrite (enc_chunks_length cs cs_pos seal). reflexivity.
+  Qed.
+
+  (** An honest triple at the head counter opens to the head slice. *)
+  Lemma honest_open : forall ctr p f x p0,
+    In (ctr, f, x) (enc_chunks cs seal ctr p) ->
+    open_ (nonce_of ctr f) x = Some p0 ->
+    (f = true /\ length p <= cs /\ p0 = p /\ x = seal (nonce_of ctr true) p)
+    \/ (f = false /\ cs < length p /\ p0 = firstn cs p
+        /\ x = seal (nonce_of ctr false) (firstn cs p)).
+  Proof using cs_pos aead_correct.
+    intros ctr p f x p0 Hin Ho.
+    apply (enc_chunks_head cs cs_pos seal) in Hin.
+    destruct Hin as [[Hf [Hl Hx]]|[Hf [Hl Hx]]]; subst f x;
+      rewrite aead_correct in Ho; inversion Ho; subst p0; [left|right]; auto.
+  Qed.
+
+  Lemma no_forgery_tail : forall ctr p a l,
+    cs < length p ->
+    no_forgery (enc_chunks cs seal ctr p) (a :: l) ->
+    (forall a', In a' l -> (ctr + 1 <= a_ctr a')%N) ->
+    no_forgery (enc_chunks cs seal (ctr + 1) (skipn cs p)) l.
+  Proof using cs_pos.
+    clear aead_correct seal_len open_.
+    intros ctr p a l Hlt Hnf Hge a' Hin Hok.
+    specialize (Hnf a' (or_intror Hin) Hok).
+    rewrite (enc_chunks_cons cs cs_pos seal) in Hnf by exact Hlt.
+    destruct Hnf as [E|Hnf]; [|exact Hnf].
+    inversion E as [[Ec Ef Ex]]. specialize (Hge a' Hin). lia.
+  Qed.
+
+  (** The core theorem, from any starting counter. *)
+  Lemma tamper_rel : forall ctr ct r o l,
+    dec_rel cs open_ ctr ct r o l ->
+    forall p,
+      no_forgery (enc_chunks cs seal ctr p) l ->
+      is_prefix r p = true /\ (o = CleanEOF -> ct = enc_from ctr p /\ r = p).
+  Proof using cs_pos aead_correct seal_len.
+    intros ctr ct r o l Hrel.
+    induction Hrel as
+      [ ctr
+      | ctr ct Hne Hlt Hc Hl
+      | ctr ct p0 Hne Hlt Hg Ho
+      | ctr ct Hne Hlt Hg Ho
+      | ctr ct p0 Hle Ho Hlim
+      | ctr ct p0 q o l Hle Ho Hlim Hrest IH
+      | ctr ct p0 Hle Ho Ho' Hs
+      | ctr ct p0 Hle Ho Ho' Hs
+      | ctr ct Hle Ho Ho' ];
+      intros p Hnf.
+    - split; [reflexivity|discriminate].
+    - split; [reflexivity|discriminate].
+    - pose proof (Hnf _ (or_introl eq_refl) eq_refl) as Hin. cbn [a_ctr a_last a_ct] in Hin.
+      destruct (honest_open _ _ _ _ _ Hin Ho) as [[_ [Hl [Hp Hx]]]|[Hf _]]; [|discriminate Hf].
+      subst p0. split; [apply is_prefix_refl|]. intros _.
+      rewrite enc_from_last by exact Hl. auto.
+    - split; [reflexivity|discriminate].
+    - pose proof (Hnf _ (or_introl eq_refl) eq_refl) as Hin. cbn [a_ctr a_last a_ct] in Hin.
+      destruct (honest_open _ _ _ _ _ Hin Ho) as [[Hf _]|[_ [Hl [Hp Hx]]]]; [discriminate Hf|].
+      subst p0. split; [apply is_prefix_firstn|discriminate].
+    - pose proof (Hnf _ (or_introl eq_refl) eq_refl) as Hin. cbn [a_ctr a_last a_ct] in Hin.
+      destruct (honest_open _ _ _ _ _ Hin Ho) as [[Hf _]|[_ [Hl [Hp Hx]]]]; [discriminate Hf|].
+      subst p0.
+      assert (Hnf' : no_forgery (enc_chunks cs seal (ctr + 1) (skipn cs p)) l).
+      { apply (no_forgery_tail ctr p _ l Hl Hnf).
+        intros a' Hin'. exact (dec_rel_attempts_ge cs open_ _ _ _ _ _ Hrest a' Hin'). }
+      destruct (IH (skipn cs p) Hnf') as [Hpre Hclean]. split.
+      + apply is_prefix_firstn_app. exact Hpre.
+      + intros Eo. destruct (Hclean Eo) as [Hct Hq]. subst q. split.
+        * rewrite enc_from_cons by exact Hl. rewrite <- Hx, <- Hct. symmetry.
+          apply firstn_skipn.
+        * apply firstn_skipn.
+    - pose proof (Hnf _ (or_intror (or_introl eq_refl)) eq_refl) as Hin.
+      cbn [a_ctr a_last a_ct] in Hin.
+      destruct (honest_open _ _ _ _ _ Hin Ho') as [[_ [Hl [Hp Hx]]]|[Hf _]]; [|discriminate Hf].
+      subst p0. split; [apply is_prefix_refl|]. intros _.
+      rewrite enc_from_last by exact Hl. split; [|reflexivity].
+      rewrite <- Hx. rewrite <- (firstn_skipn (ecs cs) ct) at 1. rewrite Hs. apply app_nil_r.
+    - pose proof (Hnf _ (or_intror (or_introl eq_refl)) eq_refl) as Hin.
+      cbn [a_ctr a_last a_ct] in Hin.
+      destruct (honest_open _ _ _ _ _ Hin Ho') as [[_ [Hl [Hp Hx]]]|[Hf _]]; [|discriminate Hf].
+      subst p0. split; [apply is_prefix_refl|discriminate].
+    - split; [reflexivity|discriminate].
+  Qed.
+
+  Lemma tamper_fuel : forall fuel ctr ct p r o l,
+    length ct < fuel ->
+    dec_fuel cs open_ fuel ctr ct = (r, o, l) ->
+    no_forgery (enc_chunks cs seal ctr p) l ->
+    is_prefix r p = true /\ (o = CleanEOF -> ct = enc_from ctr p /\ r = p).
+  Proof using cs_pos aead_correct seal_len.
+    intros fuel ctr ct p r o l Hf E Hnf.
+    apply (tamper_rel ctr ct r o l); [|exact Hnf].
+    apply (dec_fuel_rel cs open_ fuel); assumption.
+  Qed.
+
+  Lemma tamper_prefix :
+    forall (p ct : bytes),
+      let '(released, o, attempts) := decrypt_spec cs open_ ct in
+      no_forgery (enc_chunks cs seal 0 p) attempts ->
+      is_prefix released p = true.
+  Proof using cs cs_pos seal open_ aead_correct seal_len.
+    intros p ct. destruct (decrypt_spec cs open_ ct) as [[r o] l] eqn:E.
+    intros Hnf. apply decrypt_spec_rel in E.
+    exact (proj1 (tamper_rel _ _ _ _ _ E p Hnf)).
+  Qed.
+
+  Lemma tamper_clean_eof :
+    forall (p ct : bytes),
+      let '(released, o, attempts) := decrypt_spec cs open_ ct in
+      no_forgery (enc_chunks cs seal 0 p) attempts ->
+      o = CleanEOF -> ct = encrypt_spec cs seal p /\ released = p.
+  Proof using cs cs_pos seal open_ aead_correct seal_len.
+    intros p ct. destruct (decrypt_spec cs open_ ct) as [[r o] l] eqn:E.
+    intros Hnf Ho. apply decrypt_spec_rel in E. unfold encrypt_spec.
+    exact (proj2 (tamper_rel _ _ _ _ _ E p Hnf) Ho).
+  Qed.
+
+  Lemma unique_chunking :
+    forall (p ct1 ct2 : bytes),
+      (let '(_, o, l) := decrypt_spec cs open_ ct1 in
+       o = CleanEOF /\ no_forgery (enc_chunks cs seal 0 p) l) ->
+      (let '(_, o, l) := decrypt_spec cs open_ ct2 in
+       o = CleanEOF /\ no_forgery (enc_chunks cs seal 0 p) l) ->
+      ct1 = ct2.
+  Proof using cs cs_pos seal open_ aead_correct seal_len.
+    intros p ct1 ct2 H1 H2.
+    pose proof (tamper_clean_eof p ct1) as T1. pose proof (tamper_clean_eof p ct2) as T2.
+    destruct (decrypt_spec cs open_ ct1) as [[r1 o1] l1].
+    destruct (decrypt_spec cs open_ ct2) as [[r2 o2] l2].
+    destruct H1 as [Ho1 Hnf1]. destruct H2 as [Ho2 Hnf2].
+    destruct (T1 Hnf1 Ho1) as [E1 _]. destruct (T2 Hnf2 Ho2) as [E2 _]. congruence.
+  Qed.
+
+  (** Decrypting an honest ciphertext: the run exists, and it releases [p]
+      and ends cleanly when the final chunk is not full or nothing was forged. *)
+  Lemma roundtrip_rel : forall ctr p,
+    (ctr = 0%N \/ p <> []) ->
+    (ctr + N.of_nat (length p) < ctr_limit)%N ->
+    exists r o l,
+      dec_rel cs open_ ctr (enc_from ctr p) r o l
+      /\ ((length p = 0 \/ length p mod cs <> 0
+           \/ no_forgery (enc_chunks cs seal ctr p) l) -> r = p /\ o = CleanEOF).
+  Proof using cs_pos aead_correct seal_len.
+    apply (enc_chunks_ind cs cs_pos (fun ctr p =>
+      (ctr = 0%N \/ p <> []) ->
+      (ctr + N.of_nat (length p) < ctr_limit)%N ->
+      exists r o l,
+        dec_rel cs open_ ctr (enc_from ctr p) r o l
+        /\ ((length p = 0 \/ length p mod cs <> 0
+             \/ no_forgery (enc_chunks cs seal ctr p) l) -> r = p /\ o = CleanEOF))).
+    - intros ctr p Hle Hz Hb. rewrite enc_from_last by exact Hle.
+      remember (seal (nonce_of ctr true) p) as ct eqn:Ect.
+      assert (Hlen : length ct = length p + 16) by (subst ct; apply seal_len).
+      assert (Hopen : open_ (nonce_of ctr true) ct = Some p) by (subst ct; apply aead_correct).
+      assert (Hne : ct <> []) by (intros E; rewrite E in Hlen; cbn [length] in Hlen; lia).
+      destruct (Nat.eq_dec (length p) cs) as [Heq|Hneq].
+      + assert (Hfirst : firstn (ecs cs) ct = ct) by (apply firstn_all2; rewrite ecs_eq; lia).
+        assert (Hskip : skipn (ecs cs) ct = []) by (apply skipn_all2; rewrite ecs_eq; lia).
+        assert (Hecs : ecs cs <= length ct) by (rewrite ecs_eq; lia).
+        destruct (open_ (nonce_of ctr false) ct) as [p0|] eqn:Ef.
+        * assert (Hvac : forall l',
+            ~ (length p = 0 \/ length p mod cs <> 0
+               \/ no_forgery (enc_chunks cs seal ctr p) (mkAttempt ctr false ct true :: l'))).
+          { intros l' [H0|[Hm|Hnf]].
+            - lia.
+            - rewrite Heq, Nat.mod_same in Hm by lia. congruence.
+            - specialize (Hnf _ (or_introl eq_refl) eq_refl). cbn [a_ctr a_last a_ct] in Hnf.
+              rewrite enc_chunks_last in Hnf by exact Hle.
+              destruct Hnf as [E|[]]. inversion E. }
+          destruct (N.eq_dec (ctr + 1) ctr_limit) as [Hlim|Hlim].
+          -- exists p0, (Failed EOther), [mkAttempt ctr false ct true]. split.
+             ++ pose proof (DR_limit cs open_ ctr ct p0) as D. rewrite Hfirst in D.
+                apply D; assumption.
+             ++ intros Hc. destruct (Hvac [] Hc).
+          -- exists (p0 ++ []), (Failed ETrunc), [mkAttempt ctr false ct true]. split.
+             ++ pose proof (DR_more cs open_ ctr ct p0 [] (Failed ETrunc) []) as D.
+                rewrite Hfirst, Hskip in D. apply D; try assumption. constructor.
+             ++ intros Hc. destruct (Hvac [] Hc).
+        * exists p, CleanEOF,
+            [mkAttempt ctr false ct false; mkAttempt ctr true ct true]. split; [|auto].
+          pose proof (DR_last_clean cs open_ ctr ct p) as D. rewrite Hfirst in D.
+          apply D; assumption.
+      + exists p, CleanEOF, [mkAttempt ctr true ct true]. split; [|auto].
+        apply DR_short_ok; [exact Hne|rewrite ecs_eq; lia| |exact Hopen].
+        destruct Hz as [Hz|Hz]; [left; exact Hz|right].
+        destruct p as [|b p]; [congruence|]. cbn [length] in Hlen. lia.
+    - intros ctr p Hlt IH Hz Hb. rewrite enc_from_cons by exact Hlt.
+      remember (seal (nonce_of ctr false) (firstn cs p)) as c eqn:Ec.
+      assert (Hlen : length c = ecs cs).
+      { subst c. rewrite seal_len, firstn_length, ecs_eq. lia. }
+      assert (Hopen : open_ (nonce_of ctr false) c = Some (firstn cs p))
+        by (subst c; apply aead_correct).
+      assert (Hskl : length (skipn cs p) = length p - cs) by apply skipn_length.
+      destruct IH as [r' [o' [l' [D' Himp]]]].
+      { right. intros E. rewrite E in Hskl. cbn [length] in Hskl. lia. }
+      { rewrite Hskl. lia. }
+      exists (firstn cs p ++ r'), o', (mkAttempt ctr false c true :: l'). split.
+      + pose proof (DR_more cs open_ ctr (c ++ enc_from (ctr + 1)%N (skipn cs p))
+                      (firstn cs p) r' o' l') as D.
+        rewrite (firstn_app_exact _ c _ _ Hlen), (skipn_app_exact _ c _ _ Hlen) in D.
+        apply D; [rewrite app_length; lia|exact Hopen|lia|exact D'].
+      + intros Hc.
+        assert (Hc' : length (skipn cs p) = 0 \/ length (skipn cs p) mod cs <> 0
+                      \/ no_forgery (enc_chunks cs seal (ctr + 1) (skipn cs p)) l').
+        { destruct Hc as [H0|[Hm|Hnf]].
+          - lia.
+          - right. left. rewrite Hskl.
+            replace (length p) with ((length p - cs) + 1 * cs) in Hm by lia.
+            rewrite Nat.mod_add in Hm by lia. exact Hm.
+          - right. right. apply (no_forgery_tail ctr p _ l' Hlt Hnf).
+            intros a' Hin'. exact (dec_rel_attempts_ge cs open_ _ _ _ _ _ D' a' Hin'). }
+        destruct (Himp Hc') as [Hr Ho]. subst r' o'. split; [apply firstn_skipn|reflexivity].
+  Qed.
+
+  Lemma stream_roundtrip :
+    forall (p : bytes),
+      (N.of_nat (length p) < ctr_limit)%N ->
+      let '(released, o, attempts) := decrypt_spec cs open_ (encrypt_spec cs seal p) in
+      no_forgery (enc_chunks cs seal 0 p) attempts ->
+      released = p /\ o = CleanEOF.
+  Proof using cs cs_pos seal open_ aead_correct seal_len.
+    intros p Hb.
+    destruct (roundtrip_rel 0 p (or_introl eq_refl)) as [r [o [l [D Himp]]]]; [lia|].
+    apply decrypt_spec_rel in D. unfold encrypt_spec. rewrite D.
+    intros Hnf. apply Himp. right. right. exact Hnf.
+  Qed.
+
+  Lemma stream_roundtrip_nonfull :
+    forall (p : bytes),
+      (N.of_nat (length p) < ctr_limit)%N ->
+      (length p = 0 \/ Nat.modulo (length p) cs <> 0) ->
+      let '(released, o, _) := decrypt_spec cs open_ (encrypt_spec cs seal p) in
+      released = p /\ o = CleanEOF.
+  Proof using cs cs_pos seal open_ aead_correct seal_len.
+    intros p Hb Hnf.
+    destruct (roundtrip_rel 0 p (or_introl eq_refl)) as [r [o [l [D Himp]]]]; [lia|].
+    apply decrypt_spec_rel in D. unfold encrypt_spec. rewrite D.
+    apply Himp. destruct Hnf as [H0|Hm]; [left; exact H0|right; left; exact Hm].
+  Qed.
+End Main.
